@@ -447,14 +447,115 @@ def _solve_rows_stub(ta: TermAlg, pos, kw):
     m = ListV([ListV([r.f["variables"].d.get(v, num(0)) for v in want]) for r in rows])
     out = DictV()
     cols = []
-    for u in others + [None]:
-        rhs = ListV([(num(0) - r.f["variables"].d.get(u, num(0))) if u is not None else r.f["constant"] for r in rows])
-        cols.append(ta.linsolve(m, rhs))
+    try:
+        for u in others + [None]:
+            rhs = ListV([(num(0) - r.f["variables"].d.get(u, num(0))) if u is not None else r.f["constant"] for r in rows])
+            cols.append(ta.linsolve(m, rhs))
+    except Raised:
+        return _solve_singular(ta, rows, want, others)
     for i, v in enumerate(want):
         coefs_ = {u: cols[j].items[i] for j, u in enumerate(others) if not cols[j].items[i].is_zero()}
         d = cols[-1].items[i]
         out.d[v] = Rec(PT, {"variables": DictV(coefs_), "constant": num(0) - d})
     return out
+
+
+def _solve_singular(ta: TermAlg, rows, want, others):
+    """sympy.solve on a linear system whose matrix is singular: no solution -> nothing ({}); dependent equations ->
+    the leading variables in terms of the free ones (which stay in the solutions)."""
+    cols = list(want) + list(others) + [None]
+    a = []
+    for r in rows:
+        line = [r.f["variables"].d.get(v, num(0)) for v in want]
+        line += [r.f["variables"].d.get(u, num(0)) for u in others]
+        line.append(num(0) - r.f["constant"])  # sum a_v v + sum b_u u - c = 0
+        a.append(line)
+    piv = []
+    r0 = 0
+    for c in range(len(want)):
+        pr = next((r for r in range(r0, len(a)) if not a[r][c].is_zero()), None)
+        if pr is None:
+            continue
+        a[r0], a[pr] = a[pr], a[r0]
+        d = a[r0][c]
+        a[r0] = [x / d for x in a[r0]]
+        for r in range(len(a)):
+            if r != r0 and not a[r][c].is_zero():
+                f_ = a[r][c]
+                a[r] = [x - f_ * y for x, y in zip(a[r], a[r0])]
+        piv.append((r0, c))
+        r0 += 1
+    for r in range(r0, len(a)):
+        if any(not x.is_zero() for x in a[r]):
+            return DictV()  # 0 = something that is not identically zero: no solution
+    out = DictV()
+    for r, c in piv:
+        # v_c = -(sum of the other columns) ; returned as the term  sum k*w <= -d  standing for  v_c = sum k*w + d
+        coefs_ = {}
+        for j, w in enumerate(cols[:-1]):
+            if j != c and not a[r][j].is_zero():
+                coefs_[w] = num(0) - a[r][j]
+        d = num(0) - a[r][-1]
+        out.d[want[c]] = Rec(PT, {"variables": DictV(coefs_), "constant": num(0) - d})
+    return out
+
+
+def _reduction_singular(prog: Program, refine: bool):
+    """_context_reduction (strategy 5) on a selection of rows that says one bound twice (the second row is the first one
+    scaled): the square system for the multipliers is singular.  Either the call declines, or what it returns is the
+    term minus a multiple of the bound with the right sign.  Returns (cases, bad, undecided)."""
+    fi = prog.func("PolyhedralTermList._context_reduction")
+    x, y1, y2, u = Key("x"), Key("y1"), Key("y2"), Key("u")
+    bad: List[str] = []
+    undec: List[str] = []
+    cases = 0
+    for label, tcoef in (("term not in the span of the bound", {y1: -1, y2: 3, x: 1}), ("term in the span of the bound", {y1: 1, y2: 1, x: 1}), ("term against the bound", {y1: -2, y2: -2, x: 1})):
+        for scale in (2, 1):
+            cases += 1
+            ta = TermAlg(prog)
+            T = Rec(PT, {"variables": DictV({k: num(v) for k, v in tcoef.items()}), "constant": num(0)})
+            r1 = Rec(PT, {"variables": DictV({y1: num(1), y2: num(1), u: num(-1)}), "constant": num(1)})
+            r2 = Rec(PT, {"variables": DictV({y1: num(scale), y2: num(scale), u: num(-scale)}), "constant": num(scale)})
+            rows = [r1, r2]
+            forb = [y1, y2]
+            present = [y1, y2, u, x]
+            ta.stubs["PolyhedralTermList.termlist_to_polytope"] = lambda ta_, pos, kw, present=present: TupV([ListV(list(present)), ("opaque", "B"), ("opaque", "b"), ("opaque", "Bc"), ("opaque", "bc")])
+            ta.stubs["PolyhedralTerm.solve_for_variables"] = _solve_rows_stub
+            ta.ext_stubs["scipy.optimize.linprog"] = lambda ta_, pos, kw: DictV({("str", "status"): num(0), ("str", "slack"): ("opaque", "slack"), ("str", "fun"): ("opaque", "fun")})
+            ta.ext_stubs["numpy.isclose"] = lambda ta_, pos, kw: ("opaque", "mask")
+            ta.ext_stubs["numpy.where"] = lambda ta_, pos, kw: TupV([ListV([num(0), num(1)])])
+            ta.ext_stubs["numpy.nonzero"] = ta.ext_stubs["numpy.where"]
+            ta.ext_stubs["numpy.flatnonzero"] = lambda ta_, pos, kw: ListV([num(0), num(1)])
+            ta.ext_stubs["numpy.abs"] = lambda ta_, pos, kw: pos[0] if pos and isinstance(pos[0], tuple) and pos[0][:1] == ("opaque",) else (_ for _ in ()).throw(AnalysisError("numpy.abs of a symbolic value"))
+            desc = "%s: term %s, rows %s, refine=%s" % (label, _show_term(T), [_show_term(r) for r in rows], refine)
+            try:
+                context = ta.construct("PolyhedralTermList", [ListV(list(rows))], {})
+                res = ta.call(fi, [T, context, ListV(list(forb)), refine, num(5)])
+            except Raised as r:
+                if r.cls not in ("ValueError", "LinAlgError"):
+                    bad.append("%s: raises %s" % (desc, r.cls))
+                continue
+            except Undecidable:
+                continue
+            except AnalysisError as ex:
+                undec.append("%s: %s" % (desc, ex))
+                continue
+            if not isinstance(res, Rec):
+                continue
+            rc = coefs(res)
+            if any(v.name in rc for v in forb):
+                bad.append("%s: the returned term %s still mentions a forbidden variable (the multipliers computed for a singular selection solve nothing)" % (desc, _show_term(res)))
+                continue
+            # T - R must be lam * r1 on every variable and on the constant, lam of the right sign
+            diff = {k.name: T.f["variables"].d.get(k, num(0)) - rc.get(k.name, num(0)) for k in (x, y1, y2, u)}
+            lam = diff["y1"]  # r1 has coefficient 1 on y1
+            okc = all((diff[k.name] - lam * r1.f["variables"].d.get(k, num(0))).is_zero() for k in (x, y1, y2, u)) and ((T.f["constant"] - res.f["constant"]) - lam * r1.f["constant"]).is_zero()
+            sg = lam.sign_const()
+            if not okc or sg is None:
+                bad.append("%s: the returned term %s is not the term minus a multiple of the bound" % (desc, _show_term(res)))
+            elif (sg < 0) if refine else (sg > 0):
+                bad.append("%s: returns %s, obtained with a %s multiple of the bound" % (desc, _show_term(res), "negative" if refine else "positive"))
+    return cases, bad, undec
 
 
 def _reduction_patterns(prog: Program, strategy: int, nvars: int, refine: bool, concrete: bool = False):
@@ -630,6 +731,15 @@ def rule_context_reduction_certificate(ctx: Ctx, rule: str = "context-reduction-
             ctx.cannot_decide(rule, key, construct, undec[0])
         else:
             ctx.ok(rule, key, construct + " (%d returning cases of %d)" % (returned, total))
+    for refine in (True, False):
+        cases, bad, undec = _reduction_singular(prog, refine)
+        construct = "_context_reduction (strategy 5, %s, a selection of rows that states one bound twice): declined, or the term minus a multiple of the bound with the right sign" % ("refine" if refine else "relax")
+        if bad:
+            ctx.violation(rule, key, construct, "%d of %d cases are unsound; first: %s" % (len(bad), cases, bad[0]), where=fi.where)
+        elif undec:
+            ctx.cannot_decide(rule, key, construct, undec[0])
+        else:
+            ctx.ok(rule, key, construct + " (%d cases)" % cases)
     ctx.extra["reduction_sound_for_arbitrary_rows"] = reduction_sound_for_arbitrary_rows(prog)
     ctx.floor("context-reduction returning sign patterns", n_ret, 8)
 
